@@ -82,6 +82,22 @@ pub fn set_replay(json_text: &str) {
     slot.started_ms.store(now_ms(), Ordering::Release);
 }
 
+/// Like `set_replay`, but the per-transition watchdog ignores this slot (long enumerations
+/// that only need crash attribution).
+pub fn set_replay_unwatched(json_text: &str) {
+    set_replay(json_text);
+    let w = crate::env::WORKER.with(|c| c.get()) % NW;
+    SLOTS[w].started_ms.store(0, Ordering::Release);
+}
+
+/// Restart the watchdog clock of this worker's slot (one more unit of work started).
+pub fn touch() {
+    let w = crate::env::WORKER.with(|c| c.get()) % NW;
+    if SLOTS[w].started_ms.load(Ordering::Acquire) != 0 {
+        SLOTS[w].started_ms.store(now_ms(), Ordering::Release);
+    }
+}
+
 /// Record which operation (index into the state's ops; -1 = state probes) is
 /// being executed, and restart the watchdog clock.
 #[inline]
